@@ -72,6 +72,10 @@ def fingerprint_hostname(hostname, strip_suffix=False):
 
 
 def get_fingerprinted_hostname(url, infer_redirection=True, strip_suffix=False):
+    # NOTE: fingerprint_url lowercases the url before anything else
+    if not isinstance(url, SplitResult):
+        url = url.lower()
+
     if infer_redirection:
         url = resolve(url)
 
